@@ -12,8 +12,11 @@ abstract stream `Spec`, and programs over the stream operations (`StreamProg`).
                     FILE, memory and every legal callback set;
 * `C07_divergence`  the fragment is maximal: whenever `Spec` refuses an
                     operation there is a continuation (≤ 2 operations) on which
-                    two back-ends answer differently, and the two relaxations
-                    of `Agree` are real differences; witnesses D1–D6;
+                    two back-ends answer differently, and the one relaxation
+                    of `Agree` (partial trailing item) is a real difference;
+                    witnesses D2–D6.  D1 (`read8s` at end of data: 0 from a
+                    FILE, -1 elsewhere) was repaired in libxmp: the agreeing
+                    fragment grew, `C07_read8s_agree` replaces the witness;
 * `C07_same_core`   the four entry points run the same program (`load.c`);
                     only the path fields differ.
 
@@ -27,8 +30,8 @@ namespace Xmp.Stream
 /-- **Each back-end refines the abstract stream on the agreeing fragment**: if
 `Spec` defines operation `o` in (reachable) state `s`, then
 * the FILE back-end in the corresponding state answers as `Spec` does (up to
-  `Agree`: the value of `read8s` at end of data, the bytes of a partial item)
-  and moves to the state corresponding to `s'`;
+  `Agree`: the bytes of a partial trailing item) and moves to the state
+  corresponding to `s'`;
 * the memory back-end answers exactly as `Spec` does;
 * every callback handle over callbacks honouring `Legal`, in any state related
   to `s`, answers as `Spec` does (up to `Agree`) and stays related;
@@ -37,12 +40,12 @@ Values, counts, positions and the zero/non-zero error flag are all part of
 `Out` / of the state relation. -/
 theorem C07_refines (bytes : Bytes) (s s' : Spec.St) (o : Op) (out : Out)
     (hinv : Spec.Inv bytes s) (h : Spec.step bytes s o = some (out, s')) :
-    (Agree bytes s o out (File.step bytes (File.ofSpec s) o).1 ∧
+    (Agree out (File.step bytes (File.ofSpec s) o).1 ∧
       (File.step bytes (File.ofSpec s) o).2 = File.ofSpec s') ∧
     Mem.step bytes (Mem.ofSpec s) o = (out, Mem.ofSpec s') ∧
     (∀ {σ : Type} (cb : Callbacks σ) (posOf : σ → Nat), Legal bytes cb posOf →
       ∀ t : Cb.St σ, Cb.Rel posOf s t →
-        Agree bytes s o out (Cb.step cb bytes.length t o).1 ∧
+        Agree out (Cb.step cb bytes.length t o).1 ∧
         Cb.Rel posOf s' (Cb.step cb bytes.length t o).2) ∧
     Spec.Inv bytes s' :=
   ⟨File.refines bytes s s' o out hinv h, Mem.refines bytes s s' o out hinv h,
@@ -102,22 +105,17 @@ theorem C07_programs_memCb {α : Type} (bytes : Bytes) (p : StreamProg α) (hf :
     run (Mem.step bytes) p {} = run (Cb.step (memCb bytes pol) bytes.length) p { u := 0 } :=
   C07_programs bytes p hf (memCb bytes pol) id (memCb_legal bytes pol) 0 rfl
 
-/-- where `Agree` is trivial the result is simply the abstract one -/
-theorem agree_val {bytes : Bytes} {s : Spec.St} {o : Op} {v : Int} {out' : Out}
-    (h : Agree bytes s o (.val v) out') (hs : o ≠ .word .s8 ∨ s.pos + 1 ≤ bytes.length) :
-    out' = .val v := by
-  rcases h with h | ⟨h1, h2, _⟩ | ⟨_, _, _, _, h, _⟩
+/-- `Agree` only ever relaxes the bytes of a partial item: a numeric result is
+exactly the abstract one -/
+theorem agree_val {v : Int} {out' : Out} (h : Agree (.val v) out') : out' = .val v := by
+  rcases h with h | ⟨_, _, _, _, h, _⟩
   · exact h
-  · rcases hs with hs | hs
-    · exact absurd h1 hs
-    · omega
   · cases h
 
-theorem agree_data {bytes : Bytes} {s : Spec.St} {o : Op} {r : Nat} {i t : Bytes} {out' : Out}
-    (h : Agree bytes s o (.data r i t) out') (ho : o ≠ .word .s8) : ∃ t', out' = .data r i t' := by
-  rcases h with h | ⟨h1, _⟩ | ⟨_, _, _, _, h, h'⟩
+theorem agree_data {r : Nat} {i t : Bytes} {out' : Out}
+    (h : Agree (.data r i t) out') : ∃ t', out' = .data r i t' := by
+  rcases h with h | ⟨_, _, _, _, h, h'⟩
   · exact ⟨t, h⟩
-  · exact absurd h1 ho
   · cases h; exact ⟨_, h'⟩
 
 /-- the loop of `set_md5sum` (load.c): rewind, then `hio_read(buf, 1, n)` until
@@ -136,11 +134,11 @@ and therefore (by `C07_programs`) sees the same bytes through every back-end. -/
 example : InFrag [10, 20, 30] {} (md5Prog 2 4) := by
   refine .op _ { pos := 0 } _ (.val 0) _ (by decide) (fun _ _ => rfl) ?_
   refine .op _ { pos := 2 } _ (.data 2 [10, 20] []) _ (by decide) ?_ ?_
-  · intro out' h; obtain ⟨t', rfl⟩ := agree_data h (by decide); rfl
+  · intro out' h; obtain ⟨t', rfl⟩ := agree_data h; rfl
   refine .op _ { pos := 3, err := .eof, sticky := true } _ (.data 1 [30] []) _ (by decide) ?_ ?_
-  · intro out' h; obtain ⟨t', rfl⟩ := agree_data h (by decide); rfl
+  · intro out' h; obtain ⟨t', rfl⟩ := agree_data h; rfl
   refine .op _ { pos := 3, err := .eof, sticky := true } _ (.data 0 [] []) _ (by decide) ?_ ?_
-  · intro out' h; obtain ⟨t', rfl⟩ := agree_data h (by decide); rfl
+  · intro out' h; obtain ⟨t', rfl⟩ := agree_data h; rfl
   exact .ret _ _
 
 example : run (Mem.step [10, 20, 30]) (md5Prog 2 4) {} = [10, 20, 30] := by decide
@@ -219,22 +217,27 @@ theorem C07_divergence (bytes : Bytes) (s : Spec.St) (o : Op)
   | error => simp [Spec.step] at h
   | size => simp [Spec.step] at h
 
-/-- The first relaxation of `Agree` is a real difference (D1): at the end of
-the data `read8s` yields 0 from a FILE and -1 from memory. -/
-theorem C07_divergence_read8s (bytes : Bytes) (s : Spec.St) (hinv : Spec.Inv bytes s)
-    (hend : bytes.length < s.pos + 1) :
-    (File.step bytes (File.ofSpec s) (.word .s8)).1 = .val 0 ∧
-    (Mem.step bytes (Mem.ofSpec s) (.word .s8)).1 = .val (-1) := by
-  obtain ⟨hp, _⟩ := hinv
-  constructor
-  · simp only [File.step]
-    rw [File.getcs_fail bytes _ (File.ofSpec s) [] (by simpa [File.ofSpec] using hp)
-      (by simp [File.ofSpec, Word.len]; omega)]
-    rfl
-  · have : ¬ (bytes.length - s.pos ≥ 1) := by omega
-    simp [Mem.step, Mem.canRead, Mem.ofSpec, Word.len, this, Word.failOnes]
+/-- **`read8s` at the end of the data is inside the fragment** (former divergence
+D1): all three back-ends return -1 = `(int8)0xff`, set the error flag and stay at the
+end.  Before libxmp's `read8s` (dataio.c) was aligned, a FILE returned 0 here and the
+fragment had to require that programs ignore the value; that hypothesis is gone, so
+`C07_programs` now covers programs that *use* an unchecked `hio_read8s`
+(e.g. the track-pan loop of mmd3_load.c). -/
+theorem C07_read8s_agree (bytes : Bytes) (s : Spec.St) (hinv : Spec.Inv bytes s)
+    (hend : bytes.length < s.pos + 1) (pol : CbPolicy) :
+    Spec.step bytes s (.word .s8) = some (.val (-1), { pos := bytes.length, err := .eof, sticky := true }) ∧
+    (File.step bytes (File.ofSpec s) (.word .s8)).1 = .val (-1) ∧
+    (Mem.step bytes (Mem.ofSpec s) (.word .s8)).1 = .val (-1) ∧
+    (Cb.step (memCb bytes pol) bytes.length (cbOfSpec s) (.word .s8)).1 = .val (-1) := by
+  have hstep : Spec.step bytes s (.word .s8) =
+      some (.val (-1), { pos := bytes.length, err := .eof, sticky := true }) := by
+    have : ¬ (s.pos + 1 ≤ bytes.length) := by omega
+    simp [Spec.step, Word.len, this, Word.failOnes]
+  obtain ⟨⟨hfa, _⟩, hm, hc, _⟩ := C07_refines bytes s _ _ _ hinv hstep
+  refine ⟨hstep, agree_val hfa, by rw [hm], ?_⟩
+  exact agree_val (hc (memCb bytes pol) id (memCb_legal bytes pol) (cbOfSpec s) (cbOfSpec_rel s)).1
 
-/-- The second relaxation of `Agree` is a real difference (D6): after a short
+/-- The relaxation of `Agree` is a real difference (D6): after a short
 `hio_read` with a partial trailing item, FILE and memory leave its bytes in the
 buffer while a legal callback need not. -/
 theorem C07_divergence_tail (bytes : Bytes) (s : Spec.St) (size num : Nat) (hinv : Spec.Inv bytes s)
@@ -263,7 +266,7 @@ theorem C07_divergence_tail (bytes : Bytes) (s : Spec.St) (size num : Nat) (hinv
     have := congrArg List.length h
     simp at this
     omega
-  · obtain ⟨t', h'⟩ := agree_data hfa (by simp)
+  · obtain ⟨t', h'⟩ := agree_data hfa
     -- FILE keeps the partial item too: read it off the model
     have hall : slice bytes s.pos (size * num) = bytes.drop s.pos := slice_all _ _ _ (by omega)
     have htot : size * num ≠ 0 := Nat.mul_ne_zero hz hn
@@ -283,11 +286,19 @@ theorem C07_divergence_tail (bytes : Bytes) (s : Spec.St) (size num : Nat) (hinv
 
 /-! ### concrete witnesses (replayed on the real back-ends by harness/c07_streamops.c) -/
 
-/-- D1: `read8`, then `read8s` at the end of `[1]`: FILE 0, memory -1, callbacks -1 -/
-theorem C07_D1 :
-    trace (File.step [1]) [.word .u8, .word .s8] {} = [.val 1, .val 0] ∧
+/-- former D1, now an agreement: `read8`, then `read8s` at the end of `[1]`: -1 everywhere -/
+theorem C07_D1_repaired :
+    trace (File.step [1]) [.word .u8, .word .s8] {} = [.val 1, .val (-1)] ∧
     trace (Mem.step [1]) [.word .u8, .word .s8] {} = [.val 1, .val (-1)] ∧
     trace (Cb.step (memCb [1] {}) 1) [.word .u8, .word .s8] { u := 0 } = [.val 1, .val (-1)] := by decide
+
+/-- the shape of the repaired finding `entry:mmd3:load-tables` (stereo.med, byte 636 ^ 0x10): an offset
+taken from the file points beyond the end, the loader seeks there and uses an unchecked `hio_read8s`:
+the value is the same (-1) whether or not the seek went beyond the end (FILE) or was clamped (memory) -/
+theorem C07_read8s_after_seek_past :
+    trace (File.step [1, 2]) [.seek 9 .set, .word .s8] {} = [.val 0, .val (-1)] ∧
+    trace (Mem.step [1, 2]) [.seek 9 .set, .word .s8] {} = [.val 0, .val (-1)] ∧
+    trace (Cb.step (memCb [1, 2] {}) 2) [.seek 9 .set, .word .s8] { u := 0 } = [.val 0, .val (-1)] := by decide
 
 /-- D2: `seek(5, SEEK_SET)` on 2 bytes, then `tell`: FILE 5, memory 2 (clamped);
 callbacks 5 / 2 / refused according to the user's `seek_func` -/
